@@ -1,9 +1,101 @@
 import HedVerif.Driver.Util
+import HedVerif.Model.Defs
 open Lean
 namespace HedVerif.Driver.C09
-open HedVerif HedVerif.Driver
+open HedVerif HedVerif.Driver HedVerif.Defs
 
-/-- requests `{"op":"c09.<name>", ...}` of property C09 (stub: none yet) -/
-def handle (_op : String) (_j : Json) : Option (Except String Json) := none
+/-- ASCII case folding (the harness generates ASCII names only; Python `casefold` = `lower` there) -/
+def foldAscii (s : Defs.Str) : Defs.Str := s.map Char.toLower
+
+def baseOf : String → Except String Base
+  | "def" => .ok .def_ | "de" => .ok .defExpand | "dfn" => .ok .definition | "o" => .ok .other
+  | b => .error s!"bad base {b}"
+
+/-- tag: `{"b":base,"n":name,"e":ext,"o":folded original,"tv":bool,"ur":bool}`; group: `{"g":[…]}` -/
+partial def nodeOf (j : Json) : Except String Defs.Node :=
+  match j.getObjVal? "g" with
+  | .ok (Json.arr a) => do pure (Defs.Node.grp (← a.toList.mapM nodeOf))
+  | _ => do
+    let b ← baseOf (← getString j "b")
+    let n ← getStr j "n"
+    let e ← getStr j "e"
+    let og ← getStr j "o"
+    let t : Defs.Tag := { base := b, name := n, ext := e, org := og,
+                          takesValue := getBoolD j "tv" false, uniqReq := getBoolD j "ur" false }
+    pure (Defs.Node.tag t)
+
+def kidsOf (j : Json) : Except String (List Defs.Node) := do (← asArr j).mapM nodeOf
+
+def issueName : Issue → String
+  | .wrongNumberGroups => "WRONG_NUMBER_GROUPS"
+  | .noDefinitionContents => "NO_DEFINITION_CONTENTS"
+  | .wrongNumberTags => "WRONG_NUMBER_TAGS"
+  | .invalidDefExtension => "invalidDefExtension"
+  | .defTagInDefinition => "DEF_TAG_IN_DEFINITION"
+  | .badPropInDefinition => "BAD_PROP_IN_DEFINITION"
+  | .wrongNumberPlaceholderTags => "wrongNumberPlaceholderTags"
+  | .placeholderNoTakesValue => "PLACEHOLDER_NO_TAKES_VALUE"
+  | .duplicateDefinition => "duplicateDefinition"
+
+def vkindName : VKind → String
+  | .defUnmatched => "HED_DEF_UNMATCHED"
+  | .defExpandUnmatched => "HED_DEF_EXPAND_UNMATCHED"
+  | .defValueMissing => "HED_DEF_VALUE_MISSING"
+  | .defExpandValueMissing => "HED_DEF_EXPAND_VALUE_MISSING"
+  | .defValueExtra => "HED_DEF_VALUE_EXTRA"
+  | .defExpandValueExtra => "HED_DEF_EXPAND_VALUE_EXTRA"
+  | .defExpandInvalid => "HED_DEF_EXPAND_INVALID"
+  | .internalError => "ValueError"
+
+def errName : Err → String
+  | .keyError => "KeyError" | .valueError => "ValueError" | .recursion => "RecursionError"
+
+def opOf : String → Except String Op
+  | "expand" => .ok .expand | "shrink" => .ok .shrink | "copy" => .ok .copy | "str" => .ok .str
+  | "validate" => .ok .validate | "sorted" => .ok .str
+  | o => .error s!"bad op {o}"
+
+/-- dictionary from definition strings, with the issues of each string -/
+def buildDict (strings : List (List Defs.Node)) : DefDict × List (List Issue) :=
+  strings.foldl (fun acc s => let r := acceptString foldAscii acc.1 s; (r.1, acc.2 ++ [r.2])) ([], [])
+
+def entryJson (e : Entry) : Json :=
+  jarr [jstr e.key, jstr e.name, jbool e.takes,
+        if e.content.isEmpty then Json.null else jstr (Defs.str (Defs.Node.grp e.content))]
+
+/-- the object after each operation: printed form (and the def-validator kinds for `validate`), or the
+exception class at which the history stops -/
+def runSteps (fix srt : Bool) (dd : DefDict) : Obj → List (String × Op) → List Json
+  | _, [] => []
+  | o, (nm, op) :: rest =>
+    match stepG foldAscii fix dd o op with
+    | .error e => [jobj [("err", Json.str (errName e))]]
+    | .ok o' =>
+      let base := [("s", jstr (strL o'.kids))]
+      let extra := if nm == "validate" then
+          [("v", jarr ((validateDefs foldAscii srt dd o'.kids).map fun k => Json.str (vkindName k)))]
+        else if nm == "sorted" then [("sorted", jstr (strL (sortG o'.kids)))]
+        else []
+      jobj (base ++ extra) :: runSteps fix srt dd o' rest
+
+def handle (op : String) (j : Json) : Option (Except String Json) :=
+  match op with
+  | "c09.accept" => some do
+      let strings ← (← getArr j "strings").mapM kidsOf
+      let r := buildDict strings
+      pure <| jobj [("defs", jarr (r.1.map entryJson)),
+                    ("issues", jarr (r.2.map fun is => jarr (is.map fun i => Json.str (issueName i))))]
+  | "c09.run" => some do
+      let strings ← (← getArr j "defs").mapM kidsOf
+      let kids ← kidsOf (← getVal j "kids")
+      let names ← (← getArr j "ops").mapM fun o => match o with
+        | Json.str s => pure s
+        | _ => .error "op must be a string"
+      let ops ← names.mapM fun s => do pure (s, ← opOf s)
+      let dd := (buildDict strings).1
+      let o : Obj := { kids := kids }
+      pure <| jobj [("start", jstr (strL kids)),
+                    ("steps", jarr (runSteps (getBoolD j "fix" true) (getBoolD j "sorted" true) dd o ops))]
+  | _ => none
 
 end HedVerif.Driver.C09
